@@ -519,6 +519,11 @@ func (m *machine) equals(t types.Type, x, y value) value {
 		return mkBool(false)
 	case uptrv:
 		return m.uptrOp(token.EQL, xv, y)
+	case *extErr:
+		yv, _ := y.(*extErr)
+		return mkBool(xv == yv)
+	case complex128:
+		return mkBool(xv == y.(complex128))
 	}
 	panic(engineError{fmt.Sprintf("equals: unhandled %T", x)})
 }
